@@ -173,14 +173,23 @@ func runC07(t *testing.T, c *choice.Stream, r *Result, opt RunOpt) {
 			}
 			q.EncodeAware(&buf, rev)
 			skip = 1
-			dec = func(src *simio.FaultyReader) error { var m proto.Query; return m.DecodeAware(proto.NewReader(src), rev) }
+			dec = func(src *simio.FaultyReader) error {
+				var m proto.Query
+				return m.DecodeAware(proto.NewReader(src), rev)
+			}
 		case "progress":
 			proto.Progress{Rows: uint64(c.Draw("a", 1<<30)), Bytes: 1 << 40, TotalRows: 3, WroteRows: 300, WroteBytes: 70000, ElapsedNs: 1 << 50}.EncodeAware(&buf, rev)
-			dec = func(src *simio.FaultyReader) error { var m proto.Progress; return m.DecodeAware(proto.NewReader(src), rev) }
+			dec = func(src *simio.FaultyReader) error {
+				var m proto.Progress
+				return m.DecodeAware(proto.NewReader(src), rev)
+			}
 		case "profile":
 			proto.Profile{Rows: 1 << 20, Blocks: 3, Bytes: 1 << 33, AppliedLimit: true, RowsBeforeLimit: 200, CalculatedRowsBeforeLimit: true}.EncodeAware(&buf, rev)
 			skip = 1
-			dec = func(src *simio.FaultyReader) error { var m proto.Profile; return m.DecodeAware(proto.NewReader(src), rev) }
+			dec = func(src *simio.FaultyReader) error {
+				var m proto.Profile
+				return m.DecodeAware(proto.NewReader(src), rev)
+			}
 		case "exception":
 			n := c.Range("exc.n", 1, 3)
 			for i := 0; i < n; i++ {
@@ -202,7 +211,10 @@ func runC07(t *testing.T, c *choice.Stream, r *Result, opt RunOpt) {
 		default:
 			proto.TableColumns{First: drawText(c, "f"), Second: drawText(c, "s")}.EncodeAware(&buf, rev)
 			skip = 1
-			dec = func(src *simio.FaultyReader) error { var m proto.TableColumns; return m.DecodeAware(proto.NewReader(src), rev) }
+			dec = func(src *simio.FaultyReader) error {
+				var m proto.TableColumns
+				return m.DecodeAware(proto.NewReader(src), rev)
+			}
 		}
 		stream = buf.Buf[skip:]
 	}
